@@ -6,6 +6,7 @@ import FhVerif.Model.ConnStates
 import FhVerif.Model.TimeoutSem
 import FhVerif.Model.BodyStream
 import FhVerif.Model.ReqConf
+import FhVerif.Model.Hijack
 namespace Fh.Driver
 open Fh Fh.Spec.Rfc
 
@@ -83,6 +84,10 @@ def opsConn (op : String) (a : List Bytes) : Option String :=
     let seen := Fh.Model.ReqConf.run c 1 (Fh.Model.ReqConf.init c) ks
     some (" ".intercalate (seen.map fun s =>
       s!"{s.maxBody}:{if s.wdl then 1 else 0}:{if s.rdlWaiting == .request then 1 else 0}"))
+  | "hjflags", reqs =>
+    -- per request three flags "nht": n = HijackSetNoResponse(true), h = Hijack, t = handler timed out ('-' = not)
+    let rs := reqs.map fun (b : Bytes) => (⟨b[0]? == some 110, b[1]? == some 104, b[2]? == some 116⟩ : Fh.Model.HjReq)
+    some (" ".intercalate ((Fh.Model.hjRun {} rs).map fun o => s!"{if o.hijacked then 1 else 0}{if o.suppressed then 1 else 0}"))
   | "tosem", [cap, script] => do
     -- TimeoutHandler concurrency bound: script letters s (handler outlives its timeout) / f (returns at once)
     let n ← natOfDec? cap
